@@ -126,7 +126,6 @@ def field_literals(fid):
     _, name, N, p, g, small, kind = FIELDS[fid]
     rng = random.Random(GRID_SEEDS[0] * 1000 + fid)
     out = []
-    special = 22 + (4 if N > 1 else 0)
     vals = field_values(N, p, rng)
     for k, (z, cls) in enumerate(vals):
         if p == 17:
